@@ -355,3 +355,32 @@ def stepped_over_errors(sw):
             wit = ' via lines ' + ','.join(str(x) for x in trace(seen, hits[k], g))
         out.append((h, not hits, wit))
     return out
+
+
+def variable_list_builder(prog, solver_cls):
+    """the method that derives the solver's variable list from the parser's partitions:
+    -> (raw FuncInfo, flattened FuncInfo, name D of the derived attribute, set of partitions it reads).
+    Recognised on the flattened method (loops over literal partition names are unrolled, getattr resolved)."""
+    cands = []
+    for f in solver_cls.methods.values():
+        if f.name == '__init__':
+            continue
+        fl = flatten(prog, f)
+        parts = {x.attr for x in ast.walk(fl.node) if isinstance(x, ast.Attribute) and x.attr in PARTITIONS}
+        if len(parts) < 3:
+            continue
+        if any(isinstance(x, ast.Call) and call_name(x) in ('eval', 'deepcopy', '_GetCopy', 'SolveStep', 'compile')
+               for x in ast.walk(fl.node)):
+            continue
+        attrs = []
+        for n in ast.walk(fl.node):
+            if isinstance(n, ast.Assign):
+                for t in n.targets:
+                    if isinstance(t, ast.Attribute) and isinstance(t.value, ast.Name) and t.value.id == 'self':
+                        attrs.append(t.attr)
+        if attrs:
+            cands.append((f, fl, attrs[0], parts))
+    cands = [c for c in cands if not any(c[0].key in getattr(o[1], 'inlined', ()) for o in cands if o is not c)] or cands
+    if len(cands) != 1:
+        raise AnalysisError('cannot identify the variable-list builder: %s' % [c[0].qualname for c in cands])
+    return cands[0]
